@@ -48,6 +48,9 @@ EXPLANATION += ' R2 / R3 no longer compare the text of the returned expression: 
 # --- metadata added after the round-4 refactoring twins
 EXPLANATION += ' R1: which per-atom arrays `natom` consults is found by evaluating the property on objects that hold exactly one array of seven rows (every field is tried), not by reading attribute names off its text.'
 # --- end metadata round-4 twins
+# --- metadata added for batch 9
+EXPLANATION += " R1 also: an assignment hook (on_setattr) of a field may only consist of attrs' own convert / validate steps. R2 also: rows with generalized orbitals (the getters answer what the orbitals answer, assigning nelec / spinpol raises TypeError)."
+# --- end metadata batch 9
 
 
 def run(ctx):
